@@ -156,9 +156,13 @@ CursFind(subs, g1, g2) ==
   ELSE LET st == subs[Min(ks)] IN
        [hit |-> TRUE, X |-> st.recs[CovIdx(st.cov, g1) + 1].ex, E |-> st.recs[CovIdx(st.cov, g2) + 1].en]
 
+\* A glyph that already carries a displacement of its own and is then joined cursively is
+\* outside the fragment, like the displacement of an already joined glyph (Combine).
 CursAt(L, s, i1, i2) ==
   LET r == CursFind(L.subs, s[i1].g, s[i2].g) IN
-  IF r.hit THEN [s EXCEPT ![i1].pl = PCurs(i2 - 1, FlagRTL(L.flag), r.E, r.X)] ELSE s
+  IF r.hit
+  THEN [s EXCEPT ![i1].pl = IF @.t = "D" THEN PUnsupported ELSE PCurs(i2 - 1, FlagRTL(L.flag), r.E, r.X)]
+  ELSE s
 
 RECURSIVE CursLoop(_, _, _, _)
 CursLoop(L, gdef, s, i1) ==
